@@ -216,10 +216,14 @@ func H_C05_send() {
 	c.give(class, id, escrow, escrow0)
 	amount := vp.Uint64("amount")
 	dest := cname("dest")
+	relay := ""
+	if vp.Bool("relay.present") {
+		relay = cname("relay") // class paths never record relay chains: the direction depends on the destination only
+	}
 	c.pk.failing = vp.Bool("packet.layer.refuses")
 	supply0 := c.mt.supplyOf(class, id)
 
-	err := c.k.SendMtTransfer(c.ctx, class, id, addr(alice), bob, dest, "", "", amount)
+	err := c.k.SendMtTransfer(c.ctx, class, id, addr(alice), bob, dest, relay, "", amount)
 
 	wantAway := !voucher || dest != cameFrom
 	if err == nil {
